@@ -2,10 +2,10 @@
 from propslib import fn_scope
 
 PROP = dict(
-    extract=["bopomofo", "syllable"],
+    extract=["bopomofo", "syllable", "sqlite_v1"],
     lean_targets=["Chewing.Props.C19"],
     runs=[dict(bin="legacy", timeout=900), dict(bin="legacysql", features=["sqlite"], timeout=900)],
-    scope=fn_scope("loader start", "loader cstart", "loader learn", "loader encbin", "loader sqlstart"),
+    scope=fn_scope("loader start", "loader cstart", "loader learn", "loader encbin", "loader sqlstart", "loader sqlv1"),
     level="proof",
     exhaustive=False,
     rule="one evaluation = one start-up (UserDictionaryLoader::load in-process, chewing_new2 in a child process) or one "
@@ -14,17 +14,31 @@ PROP = dict(
          "the u16 boundary), first start, second start, learning, restart; the legacy file is compared byte-for-byte afterwards; "
          "`loader encbin` = the Lean writer encodeBin / GRec.Valid / liveRecs against the generator's own encoder on every generated "
          "binary store; `loader sqlstart` (feature sqlite) = first start over a directory holding only chewing.sqlite3 (generated "
-         "current-schema stores written through SqliteDictionary, plus the repository's golden current-schema and v1-schema files), "
-         "rows before/after and second start checked by the oracle. distinct = distinct record text",
+         "current-schema stores written through SqliteDictionary, generated userphrase_v1-schema stores the loader migrates in-file, "
+         "plus the repository's golden current-schema and v1-schema files), rows before/after and second start checked by the "
+         "oracle; `loader sqlv1` = one generated userphrase_v1-schema store (written through rusqlite: records of 1-11 syllables with "
+         "lengths 10 and 11 weighted, near-duplicate keys, zero phones before the end, zero / below-original / out-of-range "
+         "numbers) opened by the real SqliteDictionary::open, the rows entries() yields recomputed by the relational model "
+         "Model/SqliteV1.lean from the raw rows; oracle: every generated record present with all its syllables, phrase, user "
+         "frequency and time and nothing else, userphrase_v1 identical to what the generator wrote after every open / start, no "
+         "second migration on re-open (a frequency learned in between stays, userphrase_v2 does not grow), loader first start over "
+         "the unmigrated copy = the records, second start unchanged. distinct = distinct record text",
     trusted_base=[
         "the new user dictionary is abstract (a key-sorted map); that closing it stores the map in chewing.dat and re-opening reads "
         "it back is C10/C11's subject — here it is observed on every record (file contents after close are part of the record)",
-        "SQLite stores are abstract in the model (the rows SqliteDictionary::entries() yields, after its in-file v1->v2 migration): "
-        "the SQL itself (join of dictionary_v1/userphrase_v2, migrate_from_userphrase_v1) is NOT modelled here (C09's subject); the v1 "
-        "path is exercised on the repository's single golden v1 file only",
+        "current-schema SQLite stores are abstract in the model (the rows SqliteDictionary::entries() yields); the in-file v1->v2 "
+        "migration has a relational model (Model/SqliteV1.lean: which columns are read at which Rust type, the phone loop's range, "
+        "which value feeds which column — all regenerated from src/dictionary/sqlite.rs by tools/extractors/sqlite.py — and the "
+        "joined view as a key-sorted map); SQLite itself (storage, SQL engine, rowid scan order = insertion order for the legacy "
+        "table, iteration order of the view) is trusted and observed on every sqlv1 record",
         "little-endian, 4-byte c_int platform for the binary format",
     ],
     assumptions=[
+        "a valid v1 row = 1-11 non-zero 16-bit phones zero-padded to 11 columns, 32-bit frequencies with user_freq >= orig_freq "
+        "(what the C library maintains), a non-negative time; a store holding any number the declared Rust type cannot hold "
+        "(negative or > u32 frequency, negative time, phone outside u16) is rejected as a whole by SqliteDictionary::open "
+        "(sqlite_v1_unreadable_rejected) and migrates nothing, like a malformed text file; with user_freq < orig_freq the "
+        "joined view answers the larger one",
         "ValidLegacy = the file is the encoding (encodeBin / a well-formed text file) of records with pairwise distinct keys; "
         "a text file containing any malformed line (e.g. a negative number) is rejected as a whole by the reader and migrates nothing",
     ],
@@ -38,10 +52,16 @@ MANIFEST = dict(
          "back exactly its live records (bin_reader_complete, migrate_bin_complete: proved by induction over the record list and "
          "list-slice lemmas), any text lifetime is accepted (F26 fixed), the loader never changes the legacy files, "
          "a second start takes the current-file branch and yields the same map, and a phrase learned afterwards coexists with the "
-         "migrated ones. Tie: real first start / second start / learn / restart on temp directories vs. the model, plus an oracle "
+         "migrated ones. Older SQLite schema (userphrase_v1): relational model Model/SqliteV1.lean of "
+         "migrate_from_userphrase_v1 + the joined view entries() reads, with the SELECT list, phone-loop range, column types and INSERT "
+         "parameter lists regenerated from the source; sqlite_v1_row_complete (every row with k <= 11 non-zero phones is read as exactly "
+         "its k syllables, phrase, frequencies, time), sqlite_v1_rows_complete (a store of well-formed records with distinct keys "
+         "migrates to a view holding every record under its full key and nothing else), sqlite_v1_last_wins, sqlite_v1_first_start "
+         "(chained with the loader), sqlite_v1_unreadable_rejected, sqlite_v1_hole_skipped. Tie: real first start / second start / learn / restart on temp directories vs. the model, plus an oracle "
          "that compares against the generator's own record list and the legacy file bytes.",
     note="NOT proved: the text-format round trip (decimal print/parse) - the text reader is tied by correspondence and the oracle "
-         "compares with the generator's record list; SQLite (sqlite->trie, v1->v2) is abstract in the model and covered by "
-         "correspondence + oracle on generated current-schema stores and the golden v1 file.",
+         "compares with the generator's record list; SQLite itself (storage, SQL engine, iteration orders) is trusted; the v1->v2 migration is "
+         "modelled relationally and tied by sqlv1 records on generated v1 stores, the current-schema store is abstract (its rows are "
+         "what entries() yields) and covered by correspondence + oracle on generated stores; the golden files are an extra.",
     technique="Lean 4 proof (induction over the record list, map lemmas, encoder/decoder round trip) + sampled model-implementation correspondence",
 )
